@@ -2,7 +2,7 @@
 import warnings
 
 import core
-from core import Case, enc_b, enc_s, enc_header, psec
+from core import Case, enc_b, enc_s, enc_header, psec, call_impl
 from props.tr31util import VERS, rb, rs, rand_blocks, make_header, header_tuple, unwrap_case, wrap_case, UNWRAP_TOK, tr31, Session
 
 OBLIGATIONS = ["Psec.Props.C03.bMac_eq_tag", "Psec.Props.C03.dMac_eq_tag", "Psec.Props.C03.cMac_eq_tag", "Psec.Props.C03.deriveB_eq_kdf", "Psec.Props.C03.deriveD_eq_kdf", "Psec.Props.C03.deriveAC_eq_variant", "Psec.Props.C03.subkeys_eq", "Psec.Props.C03.encodeAscii_eq", "Psec.Props.C03.wrap_is_spec_valid", "Psec.Props.C03.wrap_opened_alike", "Psec.Tr31.specParse_all", "Psec.Tr31.specCbcDec_eq", "Psec.Props.C03.spec_valid_unwraps", "Psec.Tr31.unwrap_parts", "Psec.Tr31.blocksLoad_spec", "Psec.Tr31.disp_B", "Psec.Tr31.disp_D", "Psec.Tr31.disp_AC", "Psec.Props.C03.unwrap_eq_spec", "Psec.Props.C03.accepted_is_spec_valid", "Psec.Tr31.loadLoop_parseBlocks", "Psec.Tr31.dispatch_iff", "Psec.Tr31.specUnwrap_some_iff", "Psec.Tr31.psec_to_spec", "Psec.Tr31.spec_to_psec", "Psec.Props.C03.spec_roundtrip"]
@@ -208,6 +208,25 @@ def generate(rng, tier, seed):
             i = c2.line("spec.tr31_build\t" + "\t".join([enc_b(kbpk), enc_header(h), "s:", "i:0", enc_b(key), enc_b(rb(rng, padlen)), "i:0"]))
             c2.deferred = (kbpk, i, h, key)
             yield c2
+        # a block the caller has named like the pad block (`header.blocks["PB"] = ...`, also pb / Pb): whatever the wrapper makes of
+        # it, what it emits must be a key block the specification opens to the same key (count, lengths and MAC consistent)
+        for pid_ in ("PB", "pb", "Pb"):
+            for others in (0, 2):
+                kbpk = rb(rng, ksizes[-1])
+                blocks_ = rand_blocks(rng, others) + [(pid_, rs(rng, rng.choice((0, 4, 6))))]
+                rng.shuffle(blocks_)
+                h = make_header(rng, ver, blocks_)
+                key = rb(rng, 16)
+                c = Case(f"{ver}:caller-named-pad-block:psec-to-spec", {"id": pid_, "blocks": len(blocks_)})
+                w = call_impl("tr31.wrap", (kbpk, h, key, 0), stream="tr31")
+                if w.ok:
+                    i = c.line(f"spec.tr31_unwrap\t{enc_b(kbpk)}\t{enc_s(w.value)}")
+                    c.pred("key block produced from a header with a caller-named pad block is valid per the specification",
+                           lambda rep, i=i, key=key: None if (rep[i].startswith("ok\t") and rep[i].split("\t")[-1] == enc_b(key)) else f"specification says {rep[i][:120]}")
+                    u = call_impl("tr31.unwrap", (kbpk, w.value), stream="tr31")
+                    if not u.ok or u.value[1] != key:
+                        c.fail(f"psec does not open its own key block made from a header with a block named {pid_!r}")
+                yield c
         # long keys: bit lengths around 2^15 (4095, 4096, 4097 bytes) and the longest that fits, both directions
         for klen in (4095, 4096, 4097, 4900):
             kbpk = rb(rng, ksizes[-1])
